@@ -1653,6 +1653,9 @@ def run(chk, F):
     run_r5(chk, cf, cp, m, A)
     run_r6(chk, cf, cp, m, A)
     run_r7(chk, cf, m, A)
+    from rules import c17_sep
+    c17_sep.run(chk, F)
+    c17_sep.run_r9(chk, F)
     chk.assumptions.append("rustc's HIR/MIR of the host configuration is the code that runs; std Option/Clone/Arc "
                            "conversions hand on the same value")
     chk.extra["not_decided"] = ("idempotence; width-dependent layout; order of emitted tokens (use declarations and "
